@@ -518,7 +518,10 @@ static PyObject *Dtool_MappingWrapper_iter(PyObject *self) {
   if (keys != nullptr) {
     keys->_len_func = wrap->_keys._len_func;
     keys->_getitem_func = wrap->_keys._getitem_func;
-    return PySeqIter_New((PyObject *)keys);
+    // The iterator takes its own reference to the key view.
+    PyObject *iter = PySeqIter_New((PyObject *)keys);
+    Py_DECREF(keys);
+    return iter;
   } else {
     return nullptr;
   }
